@@ -1,6 +1,6 @@
 (** C11 — serialised results read back to the same reconciliation.
-    Statements only; every proof is [exact <lemma of Proofs/SerialProofs.v or
-    Proofs/NewickProofs.v>].
+    Statements only; every proof is [exact <lemma of Proofs/SerialProofs.v,
+    Proofs/NewickProofs.v or Proofs/C11EvalProofs.v>].
 
     Vocabulary ([Model/Newick.v], [Model/Serial.v], [Proofs/SerialProofs.v]):
     [tree] = names, colours and children in order; a node is its root path;
@@ -15,9 +15,30 @@
     trees (that premise is explicit in the statement).  The other theorems are
     about the concrete Gallina printer/parser [print_tree]/[parse_tree] — compared
     string for string with ete3 by the correspondence — for which the premise is
-    the proved [C11_newick_roundtrip]. *)
+    the proved [C11_newick_roundtrip].
+
+    Evaluator vocabulary (section "hence the same events and cost";
+    [Model/Recon.v], [Model/CliRun.v], [Proofs/C11EvalProofs.v]; names of the
+    evaluator model are written qualified):
+    [CliRun.eval_routput x] / [CliRun.eval_soutput num x] is the model of
+    [x.cost()] for an object of the dictionary layer ([None] = it raises); it
+    turns [x] into the evaluator's data — unit costs, object tree, and
+    [rec_of x : option Recon.rtree] (the species of every object node, read from
+    [omap x]) resp. [lab_of num x : option Recon.ltree] (species and synteny of
+    every node; [num] numbers the family names) — and calls [Recon.cost] /
+    [Recon.total_cost].  [output_events x] is the list of the [node_event]s of the
+    internal object nodes in pre-order ([ReconProofs.events]).
+    [same_labelled ord t t']: the labelled trees [t], [t'] have the same shape, the
+    same species at every node and at every node the same synteny — the same
+    sequence if [ord], a permutation of the same families otherwise.
+    [opt_rel R a b]: both [None], or [Some u], [Some v] with [R u v].
+    [all_sequences m]: every synteny of [m] is an [SList].  [synmap_equiv m m']:
+    same keys in the same order, per key the same families up to [Permutation].
+    [C11_evaluator_vocabulary] states these unfoldings. *)
 From Coq Require Import List Bool String ZArith Permutation.
-From SR Require Import Base.Ext Model.Newick Model.Serial Proofs.NewickProofs Proofs.SerialProofs.
+From SR Require Model.Recon Model.CliRun Proofs.ReconProofs.
+From SR Require Import Base.Ext Model.Newick Model.Serial Proofs.NewickProofs Proofs.SerialProofs
+  Proofs.C11EvalProofs.
 Import ListNotations.
 Local Open Scope string_scope.
 
@@ -138,28 +159,147 @@ Theorem C11_output_roundtrip_super_any_codec :
 Proof. exact output_roundtrip_super. Qed.
 Print Assumptions C11_output_roundtrip_super_any_codec.
 
-(** * "hence the same events and cost": anything computed from the preserved fields *)
-Theorem C11_same_events_and_cost_plain :
+(** * "hence the same events and cost", on the evaluator model.
+      The object read back is evaluated ([.cost()], [node_event]) to the same value
+      as the original, and the data the evaluator extracts from it are the same. *)
+Theorem C11_evaluator_vocabulary :
+  (forall x, rec_of x = CliRun.to_rtree (otree (base_of (r_in x))) (omap x)) /\
+  (forall num x, lab_of num x =
+     CliRun.to_ltree num (otree (base_of (r_in (s_out x)))) (omap (s_out x)) (syns x)) /\
+  (forall x, output_events x = option_map ReconProofs.events (rec_of x)) /\
+  (forall m, all_sequences m <-> Forall (fun ps => exists l, snd ps = SList l) m) /\
+  (forall m m', synmap_equiv m m' <->
+     Forall2 (fun a b => fst a = fst b /\ Permutation (syn_items (snd a)) (syn_items (snd b))) m m') /\
+  (forall ord s y s' y', same_labelled ord (Recon.LLeaf s y) (Recon.LLeaf s' y') <->
+     s = s' /\ (if ord then y = y' else Permutation y y')) /\
+  (forall ord s y a b s' y' a' b',
+     same_labelled ord (Recon.LNode s y a b) (Recon.LNode s' y' a' b') <->
+     s = s' /\ (if ord then y = y' else Permutation y y') /\
+     same_labelled ord a a' /\ same_labelled ord b b') /\
+  (forall ord s y s' y' a' b', ~ same_labelled ord (Recon.LLeaf s y) (Recon.LNode s' y' a' b') /\
+                               ~ same_labelled ord (Recon.LNode s' y' a' b') (Recon.LLeaf s y)) /\
+  (forall (A : Type) (R : A -> A -> Prop) a b,
+     opt_rel R a b <-> (a = None /\ b = None) \/ exists u v, a = Some u /\ b = Some v /\ R u v).
+Proof. exact vocabulary. Qed.
+Print Assumptions C11_evaluator_vocabulary.
+
+(* ReconciliationOutput (any well-formed one, whatever the class of its nested input):
+   same species mapping as the evaluator reads it, same events, same cost — including
+   "raises on both sides" ([None = None]) *)
+Theorem C11_same_events_and_cost_plain : forall x : routput,
+  wf_routput well_named x ->
+  exists d x', routput_to_dict print_tree x = Some d /\
+               routput_from_dict parse_tree d = Some x' /\
+               rec_of x' = rec_of x /\
+               output_events x' = output_events x /\
+               CliRun.eval_routput x' = CliRun.eval_routput x.
+Proof. exact nk_same_events_and_cost_plain. Qed.
+Print Assumptions C11_same_events_and_cost_plain.
+
+(* SuperReconciliationOutput, for every numbering [num] of the family names: ordered
+   outputs whose syntenies are sequences, and ALL unordered outputs (sets or sequences at
+   the nodes: a set comes back as the sorted list of its elements).  Same [ordered] flag,
+   same species mapping and events, the same labelled tree up to the order in which the
+   families of an unordered synteny are listed, and the same cost.
+   With [ordered x = true] a set-valued synteny is outside the domain of [cost()]: the
+   package subscripts the syntenies ([child[child_i]]: TypeError on a set) and enumerates
+   the root synteny in iteration order; the model reads an [SSet] in its listing order, and
+   there the equality fails: [C11_ordered_sets_outside_domain] below. *)
+Theorem C11_same_events_and_cost_super :
+  forall (num : string -> option Recon.fam) (x : soutput),
+  wf_soutput well_named x ->
+  (ordered x = true -> all_sequences (syns x)) ->
+  exists d x', soutput_to_dict print_tree x = Some d /\
+               soutput_from_dict parse_tree d = Some x' /\
+               ordered x' = ordered x /\
+               rec_of (s_out x') = rec_of (s_out x) /\
+               output_events (s_out x') = output_events (s_out x) /\
+               opt_rel (same_labelled (ordered x)) (lab_of num x) (lab_of num x') /\
+               CliRun.eval_soutput num x' = CliRun.eval_soutput num x.
+Proof. exact nk_same_events_and_cost_super. Qed.
+Print Assumptions C11_same_events_and_cost_super.
+
+(* the baseline form: any writer/reader pair that round-trips on [ok] trees *)
+Theorem C11_same_events_and_cost_super_any_codec :
+  forall (write : tree -> string) (read : string -> option tree) (ok : tree -> Prop),
+  (forall t, ok t -> read (write t) = Some t) ->
+  forall (num : string -> option Recon.fam) (x : soutput),
+  wf_soutput ok x ->
+  (ordered x = true -> all_sequences (syns x)) ->
+  exists d x', soutput_to_dict write x = Some d /\
+               soutput_from_dict read d = Some x' /\
+               ordered x' = ordered x /\
+               rec_of (s_out x') = rec_of (s_out x) /\
+               output_events (s_out x') = output_events (s_out x) /\
+               opt_rel (same_labelled (ordered x)) (lab_of num x) (lab_of num x') /\
+               CliRun.eval_soutput num x' = CliRun.eval_soutput num x.
+Proof. exact same_events_and_cost_super. Qed.
+Print Assumptions C11_same_events_and_cost_super_any_codec.
+
+(* the ingredients, for ALL objects (no well-formedness needed): the evaluator reads the
+   nested input only through [base_of] ... *)
+Theorem C11_evaluator_ignores_input_class : forall x : routput,
+  CliRun.eval_routput (mkRO (Plain (base_of (r_in x))) (omap x)) = CliRun.eval_routput x.
+Proof. exact eval_routput_back. Qed.
+Print Assumptions C11_evaluator_ignores_input_class.
+
+(* ... the re-read labelling [norm_syn (syns x)] is evaluated like [syns x] ... *)
+Theorem C11_evaluator_ignores_normalisation :
+  forall (num : string -> option Recon.fam) (x : soutput),
+  (ordered x = true -> all_sequences (syns x)) ->
+  CliRun.eval_soutput num
+    (mkSO (mkRO (Plain (base_of (r_in (s_out x)))) (omap (s_out x))) (norm_syn (syns x)) (ordered x)) =
+  CliRun.eval_soutput num x.
+Proof. exact eval_soutput_back. Qed.
+Print Assumptions C11_evaluator_ignores_normalisation.
+
+(* ... because labellings with the same families per node give the same labelled tree up to
+   the listing order, whatever the object tree and species mapping ... *)
+Theorem C11_labelled_tree_up_to_listing_order :
+  forall (num : string -> option Recon.fam) (t : tree) (m : treemap) (sy sy' : synmap),
+  synmap_equiv sy sy' ->
+  opt_rel (same_labelled false) (CliRun.to_ltree num t m sy) (CliRun.to_ltree num t m sy').
+Proof. exact to_ltree_synmap_equiv. Qed.
+Print Assumptions C11_labelled_tree_up_to_listing_order.
+
+(* ... and [SuperReconciliationOutput.cost()] with [ordered = False] does not see the
+   listing order (only set inclusions are tested; duplicates do not matter either) *)
+Theorem C11_cost_ignores_listing_order :
+  forall (c : Recon.costs) (O : Recon.otree) (ord : bool) (t t' : Recon.ltree),
+  same_labelled ord t t' -> Recon.total_cost c O ord t' = Recon.total_cost c O ord t.
+Proof. exact total_cost_same_labelled. Qed.
+Print Assumptions C11_cost_ignores_listing_order.
+
+(* the events of a labelled output are those of its species mapping *)
+Theorem C11_labelled_tree_species :
+  forall (num : string -> option Recon.fam) (x : soutput) (t : Recon.ltree),
+  lab_of num x = Some t -> rec_of (s_out x) = Some (Recon.forget t).
+Proof. exact lab_of_rec_of. Qed.
+Print Assumptions C11_labelled_tree_species.
+
+(** * Congruence lemmas.  These hold for ANY function [f] of the preserved fields and so
+      say nothing about the evaluator (that is the section above); they are kept because
+      they cover whatever else a client computes from the fields.  For labelled outputs
+      [f] must not distinguish labellings with the same families per node. *)
+Theorem C11_congruence_plain :
   forall (A : Type) (f : rinput -> treemap -> A) (x : routput),
   wf_routput well_named x ->
   exists d x', routput_to_dict print_tree x = Some d /\
                routput_from_dict parse_tree d = Some x' /\
                f (base_of (r_in x')) (omap x') = f (base_of (r_in x)) (omap x).
 Proof. exact nk_same_function_of_fields_plain. Qed.
-Print Assumptions C11_same_events_and_cost_plain.
+Print Assumptions C11_congruence_plain.
 
-(* labellings made of sequences — every ordered labelling — come back verbatim;
-   set-valued ones as permutations, see C11_labelling_after_roundtrip *)
-Theorem C11_same_events_and_cost_super :
+Theorem C11_congruence_super :
   forall (A : Type) (f : rinput -> treemap -> synmap -> bool -> A) (x : soutput),
   wf_soutput well_named x ->
-  Forall (fun ps => exists l, snd ps = SList l) (syns x) ->
+  (forall b m o sy sy', synmap_equiv sy sy' -> f b m sy o = f b m sy' o) ->
   exists d x', soutput_to_dict print_tree x = Some d /\
                soutput_from_dict parse_tree d = Some x' /\
                f (base_of (r_in (s_out x'))) (omap (s_out x')) (syns x') (ordered x') =
                f (base_of (r_in (s_out x))) (omap (s_out x)) (syns x) (ordered x).
-Proof. exact nk_same_function_of_fields_super. Qed.
-Print Assumptions C11_same_events_and_cost_super.
+Proof. exact nk_congruence_super_equiv. Qed.
+Print Assumptions C11_congruence_super.
 
 (** * reserialise_fixpoint: serialising the re-read object reproduces the
       dictionary; for outputs, every key except the nested "leaf_syntenies"
@@ -247,4 +387,57 @@ Example C11_example_roundtrip :
 Proof.
   split; [vm_compute; reflexivity|].
   intros d E. vm_compute in E. injection E as <-. vm_compute. reflexivity.
+Qed.
+
+(** * Non-vacuity of the events/cost theorems: the unordered output above (the root set
+      is listed as g10,g2,g01,g1 and comes back as g01,g1,g2,g10; the set of c_1 as g2,g10)
+      is evaluated to 6 = 3 segmental losses at unit cost 2, before and after the round trip,
+      with two speciations. *)
+Definition ex_num : string -> option Recon.fam := CliRun.fam_num ["g10"; "g2"; "g01"; "g1"].
+
+Example C11_example_hypotheses_eval : ordered ex_out = true -> all_sequences (syns ex_out).
+Proof. discriminate. Qed.
+
+Example C11_example_same_events_and_cost :
+  CliRun.eval_soutput ex_num ex_out = Some (Fin 6) /\
+  output_events (s_out ex_out) = Some [Recon.Spe; Recon.Spe] /\
+  (forall d x', soutput_to_dict print_tree ex_out = Some d ->
+                soutput_from_dict parse_tree d = Some x' ->
+                syns x' <> syns ex_out /\
+                lab_of ex_num x' <> lab_of ex_num ex_out /\
+                output_events (s_out x') = Some [Recon.Spe; Recon.Spe] /\
+                CliRun.eval_soutput ex_num x' = Some (Fin 6)).
+Proof.
+  split; [vm_compute; reflexivity|]. split; [vm_compute; reflexivity|].
+  intros d x' E. vm_compute in E. injection E as <-. intros E. vm_compute in E. injection E as <-.
+  split; [vm_compute; discriminate|]. split; [vm_compute; discriminate|].
+  split; vm_compute; reflexivity.
+Qed.
+
+(** * The clause [ordered x = true -> all_sequences (syns x)] cannot be dropped in the model:
+      an ordered output whose root synteny is a set listed as g2,g1 is evaluated to 2, the
+      object read back (root synteny g1,g2) to 0. *)
+Definition ord_O : tree := Node "R" None [Node "a_1" None []; Node "b_1" None []].
+Definition ord_S : tree := Node "ab" None [Node "a" None []; Node "b" None []].
+Definition ord_out : soutput :=
+  mkSO (mkRO (Plain (mkRI ord_O ord_S [([0], [0]); ([1], [1])]
+                          [(SPECIATION, Fin 0); (DUPLICATION, Fin 1); (HORIZONTAL_TRANSFER, Fin 1);
+                           (FULL_LOSS, Fin 1); (SEGMENTAL_LOSS, Fin 1)]))
+             [([], []); ([0], [0]); ([1], [1])])
+       [([], SSet ["g2"; "g1"]); ([0], SList ["g1"; "g2"]); ([1], SList ["g1"; "g2"])]
+       true.
+
+Example C11_ordered_sets_outside_domain :
+  wf_soutput well_named ord_out /\
+  CliRun.eval_soutput (CliRun.fam_num ["g1"; "g2"]) ord_out = Some (Fin 2) /\
+  (forall d x', soutput_to_dict print_tree ord_out = Some d ->
+                soutput_from_dict parse_tree d = Some x' ->
+                CliRun.eval_soutput (CliRun.fam_num ["g1"; "g2"]) x' = Some (Fin 0)).
+Proof.
+  split.
+  { repeat split; simpl;
+      repeat (constructor; simpl; try reflexivity; try (intuition discriminate)). }
+  split; [vm_compute; reflexivity|].
+  intros d x' E. vm_compute in E. injection E as <-. intros E. vm_compute in E. injection E as <-.
+  vm_compute. reflexivity.
 Qed.
